@@ -68,6 +68,7 @@ var c14ListB = ListSpec{ID: 2, Text: "# list B\n" +
 	"||rw.test^$dnsrewrite=2.3.4.5\n" +
 	"@@||rw.test^$dnsrewrite=1.2.3.4\n" +
 	"/h[o0]sts\\.test/\n" +
+	"||repeat.test^$client=zoe,client=adam\n||repeat.test^$ctag=pc,ctag=tv,dnstype=A,dnstype=AAAA\n" + // modifiers written twice
 	"||v6.test^$dnstype=AAAA"} // likewise: last line, no terminator
 
 func netAll(url, src string, t rules.RequestType) Query {
@@ -116,6 +117,7 @@ func C14Scenarios() []Scenario {
 		{Name: "S8-last-lines-of-two-files-2t", Lists: both, Threads: [][]Query{{q2}, {d4}}, Warm: []Query{q1}},
 		{Name: "S10-equal-priority-rules-in-both-orders-2t", Lists: both, Threads: [][]Query{{fs}, {sf}}, Warm: []Query{q1}},
 		{Name: "S11-many-names-many-rules-2t", Lists: both, Threads: [][]Query{{d9, d11}, {d10, many}}, Warm: []Query{d1}, QuickBound: 1},
+		{Name: "S14-modifier-written-twice-2t", Lists: both, Threads: [][]Query{{dnsQ("repeat.test", 1, "adam", ""), dnsQ("repeat.test", 28, "zoe", "", "tv")}, {dnsQ("repeat.test", 1, "adam", ""), dnsQ("repeat.test", 1, "zoe", "", "pc")}}, Warm: []Query{d1}, QuickBound: 1},
 		{Name: "S9-host-named-twice-2t", Lists: both, Threads: [][]Query{{d8}, {d8, d7}}, Warm: []Query{d1}},
 		{Name: "S5-engine-cosmetic-dns-3t", Lists: both, Threads: [][]Query{{eng}, {cos}, {d1}}, Warm: []Query{eng}},
 		{Name: "S12-cosmetic-sibling-hosts-2t", Lists: both, Threads: [][]Query{{cosA, cosB}, {cosB, cosA}}, Warm: []Query{cos}},
